@@ -115,8 +115,8 @@ class TagLibrary:
             If a tag_name that already exists is used.
         """
 
-        # Check for duplicates
-        if tag_name in self.__dict__:
+        # Check for duplicates (and for names that would shadow the library's own attributes and methods)
+        if tag_name in self.__dict__ or hasattr(self, tag_name):
             raise DuplicateTagError(tag_name)
         else:
             self.__dict__[tag_name] = self._tag_counter
@@ -220,6 +220,8 @@ def add_tag(tag_name: str):
     DuplicateTagError
         If a tag_name that already exists is used.
     """
+    if tag_name in globals():  # The module's own names always win over tag lookups, so they cannot be tags
+        raise DuplicateTagError(tag_name)
     _module_library.add_tag(tag_name)
 
 
